@@ -22,8 +22,10 @@ mod spec;
 mod sweep;
 
 mod c01;
+mod c02;
 mod c03;
 mod c04;
+mod c05;
 mod c16;
 mod c13;
 mod c15;
@@ -104,8 +106,10 @@ fn main() {
 fn dispatch(ctx: &Ctx) -> i32 {
     match ctx.property.as_str() {
         "C01" => c01::run(ctx),
+        "C02" => c02::run(ctx),
         "C03" => c03::run(ctx),
         "C04" => c04::run(ctx),
+        "C05" => c05::run(ctx),
         "C16" => c16::run(ctx),
         "C13" => c13::run(ctx),
         "C15" => c15::run(ctx),
@@ -122,8 +126,10 @@ fn dispatch(ctx: &Ctx) -> i32 {
 fn dispatch_replay(ctx: &Ctx, v: &serde_json::Value) -> i32 {
     match ctx.property.as_str() {
         "C01" => c01::replay(ctx, v),
+        "C02" => c02::replay(ctx, v),
         "C03" => c03::replay(ctx, v),
         "C04" => c04::replay(ctx, v),
+        "C05" => c05::replay(ctx, v),
         "C16" => c16::replay(ctx, v),
         "C13" => c13::replay(ctx, v),
         "C15" => c15::replay(ctx, v),
@@ -140,8 +146,10 @@ fn dispatch_replay(ctx: &Ctx, v: &serde_json::Value) -> i32 {
 fn worker_sweeps(ctx: &Ctx) -> Vec<sweep::Sweep> {
     match ctx.property.as_str() {
         "C01" => c01::sweeps(ctx),
+        "C02" => c02::sweeps(ctx),
         "C03" => c03::sweeps(ctx),
         "C04" => c04::sweeps(ctx),
+        "C05" => c05::sweeps(ctx),
         "C16" => c16::sweeps(ctx),
         _ => {
             eprintln!("MACHINERY: no worker sweeps for {}", ctx.property);
